@@ -15,7 +15,7 @@ NAMES = {1: "A", 2: "B"}
 CZ = {"order": {1: 1, 2: 2, 0: 0, -1: -1}, "grating": {1: 1.2e-3, 2: 1.0e-3, 0: 0.0, -1: -1.e-3},
       "focal": {1: 1.e9, 2: 0.8e9, 0: 0.0, -1: -1.e9}, "spacing": {1: 2.e4, 2: 1.5e4, 0: 0.0, -1: -2.e4},
       "angle": {1: 10.0, 2: 12.0, 0: 0.0, -1: -5.0},
-      "acc": {1: ((500.0, 4),), 2: ((400.0, 3), (600.0, 5)), 3: ((300.0, 6),), 0: ((-500.0, 4),), -1: ((500.0, 0),), -2: ((500.0, -3),)}}
+      "acc": {1: ((500.0, 4),), 2: ((400.0, 3), (600.0, 5)), 3: ((300.0, 6),), 4: ((600.0, 5), (400.0, 3)), 5: ((400.0, 64), (400.3, 8)), 0: ((-500.0, 4),), -1: ((500.0, 0),), -2: ((500.0, -3),)}}
 BAD_W2P = {0: [[500.0, 499.0, 501.0]], -1: [[500.0]], -2: [[[1.0, 2.0], [3.0, 4.0]]]}
 
 
@@ -127,6 +127,15 @@ def replay(rec, ctx):
             bad(f"differs-from-fresh.{k}", f"after history: {a[k]!r}; fresh: {b[k]!r}"[:400])
         if isinstance(b[k], str) and b[k].startswith("raised-") and k != "name":
             bad(f"readout-raises.{k}", f"{b[k]} on a freshly constructed instrument")
+    if kind != "polychromator" and not isinstance(a["wavelength_to_pixel"], str) and not isinstance(a["spectral_bins"], str):
+        # the property's inequalities, for any layout: the range covers every pixel, bins are at most narrowest pixel / min_bins wide
+        edges = [x for arr in a["wavelength_to_pixel"] for x in arr]
+        widths = [abs(arr[i + 1] - arr[i]) for arr in a["wavelength_to_pixel"] for i in range(len(arr) - 1)]
+        lo, hi, nb = a["min_wavelength"], a["max_wavelength"], a["spectral_bins"]
+        if not (lo <= min(edges) and max(edges) <= hi):
+            bad("range-does-not-cover-every-pixel", f"range ({lo}, {hi}) pixel edges span ({min(edges)}, {max(edges)})")
+        elif nb <= 0 or (hi - lo) / nb > min(widths) / a["min_bins_per_pixel"] * (1 + 1e-12):
+            bad("bin-wider-than-narrowest-pixel-over-min-bins", f"({hi} - {lo}) / {nb} > {min(widths)} / {a['min_bins_per_pixel']}")
     if rec["exact"]:
         mn2, mx2, bins = rec["exact"]
         if a["min_wavelength"] != mn2 / 2 or a["max_wavelength"] != mx2 / 2:
